@@ -669,9 +669,9 @@ func stagePutFault(sink *hx.Sink) {
 			var reqs []davx.Req
 			for _, sz := range sizes {
 				body := strings.Repeat("Z", sz)
-				ks := map[int]bool{0: true, 1: true, 2: true, sz - 1: true, sz: true, 32767: true, 32768: true, 32769: true, -1: true}
+				ks := map[int]bool{0: true, 1: true, 2: true, sz - 1: true, sz: true, 32767: true, 32768: true, 32769: true, -1: true, -2: true}
 				for k := range ks {
-					if k > sz || (k < 0 && k != -1) {
+					if k > sz || (k < 0 && k != -1 && k != -2) {
 						continue
 					}
 					r := davx.NewReq("PUT", t.path)
